@@ -2,11 +2,13 @@ import Dagrt.Driver.C06
 import Dagrt.Driver.Kinds
 import Dagrt.Driver.C10
 import Dagrt.Driver.C04
+import Dagrt.Driver.C05
 open Lean Dagrt.Driver
 
 def dispatch (j : Json) : R Json := do
   let op ← str? (← field j "op")
   match op.splitOn "." with
+  | ["C05", o] => C05.handle o j
   | ["C06", o] => C06.handle o j
   | ["C04", o] => C04.handle o j
   | ["C10", o] => C10.handle o j
